@@ -29,7 +29,7 @@ ASSUMPTIONS = [
     "judged as parse / include failures",
 ]
 REQUIRED = ["judged:setattr", "judged:setitem", "judged:ctor", "judged:assign_sub", "judged:listop", "judged:dictop",
-            "judged:slistop", "judged:bad_doc", "judged:bad_include", "judged:set_readonly", "dynamic-key-before-failed-load"]
+            "judged:slistop", "judged:bad_doc", "judged:bad_include", "judged:set_readonly", "dynamic-key-before-failed-load", "judged:assign_sub_unknown"]
 LEVEL_TEXT = (
     "Generated states x generated failing operations with a full deep before/after snapshot (values, defined "
     "marks, identities); shows the property on the explored pairs and kills mutants that store or clear marks "
@@ -110,6 +110,12 @@ def _extra_ops(spec):
     if incs:
         extra.append(D({"op": J("bad_include"), "inc": st.integers(0, len(incs) - 1), "fmt": st.sampled_from(trees.FORMATS),
                         "tree": ops.subtree(spec), "target": st.sampled_from(["missing.cfg", "sub", "empty", "sub/none/x", "", "$ROOT/fs/nope", "$ROOT/fs/sub", "a.txt"])}))
+    conts = ops.spec_containers(spec)
+    if conts:
+        # a map assigned to a sub-configuration that also names a field the sub-schema does not declare (named last, so that
+        # the declared keys before it have already been applied to the replacement when the assignment is rejected)
+        extra.append(st.integers(0, len(conts) - 1).flatmap(lambda i: D({"op": J("assign_sub_unknown"), "cont": J(i), "tree": ops.subtree(conts[i][1]),
+                                                                          "how": st.sampled_from(["setattr", "setitem"])})))
     tds = [(p, n) for p, n in leaves if n["kind"] == "dict" and (n.get("keyf") or n.get("valuef"))]
     if tds:
         def one(i):
@@ -357,6 +363,20 @@ def run_case(case, R):
                         continue  # the include resolved; a later failure is a validation failure
                     judged = True
                     depth = len(ipath)
+            elif name == "assign_sub_unknown":
+                conts = ops.spec_containers(spec)
+                spath, snode = conts[op["cont"] % len(conts)]
+                if snode.get("dynamic"):
+                    continue  # a dynamic schema takes the undeclared key
+                tree = specs.realize(ops.resolve_tree(snode, op["tree"], world.ctx))
+                tree = dict(tree) if isinstance(tree, dict) else {}
+                tree["zz_not_declared"] = 1
+                try:
+                    ops.set_via(cfg, spath, tree, op["how"])
+                    continue
+                except Exception:
+                    judged = True
+                    depth = len(spath)
             else:
                 out = ops.apply_op(world, state, op)
                 if out.kind != "raised":
